@@ -106,7 +106,12 @@ type RecordedReq struct {
 
 // StartPeer listens on ip:0 (ip may be "127.0.0.3", "::1", …).
 func StartPeer(name, ip string, tlsCfg *tls.Config, handler func(*PeerConn)) (*Peer, error) {
-	ln, err := net.Listen("tcp", net.JoinHostPort(ip, "0"))
+	return StartPeerAt(name, net.JoinHostPort(ip, "0"), tlsCfg, handler)
+}
+
+// StartPeerAt listens on a fixed address (e.g. 127.0.0.2:80 for default-port targets).
+func StartPeerAt(name, addr string, tlsCfg *tls.Config, handler func(*PeerConn)) (*Peer, error) {
+	ln, err := net.Listen("tcp", addr)
 	if err != nil {
 		return nil, err
 	}
